@@ -52,7 +52,7 @@ def _start_server(hs):
                          stderr=subprocess.DEVNULL, text=True, cwd=B.VERIF)
     line = p.stdout.readline()
     if '"ready"' not in line:
-        raise SystemExit(f"HARNESS: C14 incarnation server for hash seed {hs} did not start: {line!r}")
+        B.harness_exit(f"HARNESS: C14 incarnation server for hash seed {hs} did not start: {line!r}")
     return p
 
 
